@@ -12,6 +12,7 @@ From Coq Require Import List Bool Arith ZArith Reals Lra Lia Sorted Permutation.
 Import ListNotations.
 From PS Require Import Num RLemmas Valid ModelKernels ModelFuncs ModelAPI Spec SyncDefs.
 From PS Require Import Lem_Pwc Heap.
+From PS Require Lem_Pwl.
 Local Open Scope R_scope.
 
 (* ================================================================== *)
@@ -531,6 +532,984 @@ Qed.
 Lemma dot_unitv : forall k w, dot (unitv k) w = nth k w 0.
 Proof.
   unfold unitv. induction k as [|k IH]; intros w; cbn [repeat app dot].
-  - destruct w as [|b w]; cbn; [lra|]. rewrite dot_nil_l_aux. lra.
+  - destruct w as [|b w]; cbn; [lra|]. lra.
   - destruct w as [|b w]; cbn [nth]; [reflexivity|]. rewrite IH. lra.
 Qed.
+
+Lemma vadd_length : forall u v, length (vadd u v) = Nat.max (length u) (length v).
+Proof.
+  induction u as [|a u IH]; intros v; [reflexivity|].
+  destruct v as [|b v]; [cbn; lia|]. cbn [vadd length]. rewrite IH. lia.
+Qed.
+
+(* ---- Forall2 helpers ---- *)
+
+Lemma F2_length {A B} (P : A -> B -> Prop) l1 l2 : Forall2 P l1 l2 -> length l1 = length l2.
+Proof. induction 1; cbn; auto. Qed.
+
+Lemma F2_impl {A B} (P Q : A -> B -> Prop) l1 l2 :
+  (forall a b, P a b -> Q a b) -> Forall2 P l1 l2 -> Forall2 Q l1 l2.
+Proof. intros H. induction 1; constructor; auto. Qed.
+
+Lemma F2_nth_l {A B} (P : A -> B -> Prop) l1 l2 : Forall2 P l1 l2 ->
+  forall i a, nth_error l1 i = Some a -> exists b, nth_error l2 i = Some b /\ P a b.
+Proof.
+  induction 1 as [|x y l1 l2 Hxy H IH]; intros [|i] a Hi; try discriminate.
+  - injection Hi as <-. exists y. split; auto.
+  - apply IH; auto.
+Qed.
+
+Lemma F2_upd {A B} (P : A -> B -> Prop) l1 l2 a b : Forall2 P l1 l2 -> P a b ->
+  forall i, Forall2 P (upd l1 i a) (upd l2 i b).
+Proof.
+  induction 1 as [|x y l1 l2 Hxy H IH]; intros Hab [|i]; cbn [upd]; constructor; auto.
+Qed.
+
+Lemma F2_of_nth {A B} (P : A -> B -> Prop) : forall l1 l2, length l1 = length l2 ->
+  (forall i a b, nth_error l1 i = Some a -> nth_error l2 i = Some b -> P a b) -> Forall2 P l1 l2.
+Proof.
+  induction l1 as [|x l1 IH]; intros [|y l2] HL H; try discriminate; constructor.
+  - apply (H 0%nat); reflexivity.
+  - apply IH; [cbn in HL; lia|]. intros i a b Ha Hb. apply (H (S i)); auto.
+Qed.
+
+Lemma F2_Forall_l {A B} (P : A -> B -> Prop) (Q : A -> Prop) l1 l2 :
+  (forall a b, P a b -> Q a) -> Forall2 P l1 l2 -> Forall Q l1.
+Proof. intros H. induction 1; constructor; eauto. Qed.
+
+(* ---- small facts on piecewise-constant functions ---- *)
+
+Lemma pwc_at_some xs : forall ys t, ssorted xs -> length xs = S (length ys) ->
+  nthF ROps xs 0 < t < lastF ROps xs -> ~ In t xs -> exists v, pwc_at ROps xs ys t = Some v.
+Proof.
+  induction xs as [|a xs IH]; intros ys t Hs Hl Ht Hn; [discriminate|].
+  destruct xs as [|b r].
+  { rewrite nthF_0, lastF_one in Ht. lra. }
+  destruct ys as [|y ys]; [cbn in Hl; lia|].
+  rewrite pwc_at_cons2. rewrite nthF_0, lastF_cons2 in Ht.
+  destruct (Rltb_spec a t) as [Ha|Ha]; [|lra].
+  destruct (Rltb_spec t b) as [Hb|Hb]; cbn [andb]; [eauto|].
+  apply IH.
+  - eapply ssorted_tl; eauto.
+  - cbn [length] in *. lia.
+  - rewrite nthF_0. split; [|lra].
+    destruct (Req_dec t b) as [->|N]; [exfalso; apply Hn; right; left; auto|lra].
+  - intros Hc. apply Hn. right; auto.
+Qed.
+
+Lemma int_all_scale c xs : forall ys,
+  pwc_int_all ROps xs (map (fun y => y * c) ys) = pwc_int_all ROps xs ys * c.
+Proof.
+  induction xs as [|a xs IH]; intros ys; [cbn; lra|].
+  destruct xs as [|b r]; [cbn; lra|]. destruct ys as [|y ys]; [cbn; lra|].
+  cbn [map]. rewrite !int_all_cons2, IH. ring.
+Qed.
+
+Lemma sorted_ends (l : list R) a b : ssorted l -> In a l -> In b l ->
+  (forall z, In z l -> a <= z <= b) -> (2 <= length l)%nat -> nthF ROps l 0 = a /\ lastF ROps l = b.
+Proof.
+  intros Hs Ha Hb Hr H2. pose proof (ssorted_bounds l Hs) as B. rewrite Forall_forall in B.
+  assert (I0 : In (nthF ROps l 0) l) by (apply nth_In; lia).
+  assert (IL : In (lastF ROps l) l) by (rewrite lastF_nth; apply nth_In; lia).
+  pose proof (B a Ha). pose proof (B b Hb). pose proof (Hr _ I0). pose proof (Hr _ IL).
+  split; lra.
+Qed.
+
+Section PwcHistory.
+  Variables x0 xn : R.
+
+  Local Notation pwcR := (@pwc R).
+  Local Notation opR := (@op R).
+
+  (* well-formed function on [x0, xn] *)
+  Definition good (f : pwcR) : Prop :=
+    wf_pwc f /\ nthF ROps (fst f) 0 = x0 /\ lastF ROps (fst f) = xn.
+
+  Definition valat (t : R) (b : pwcR) : R := optval (pwc_at ROps (fst b) (snd b) t).
+  Definition intof (b : pwcR) : R := pwc_int_all ROps (fst b) (snd b).
+  (* t is not a breakpoint of any base function *)
+  Definition generic (B : list pwcR) (t : R) : Prop := forall b, In b B -> ~ In t (fst b).
+  (* all breakpoints of the base functions with the listed indices *)
+  Definition bps (B : list pwcR) (l : list nat) : list R :=
+    flat_map (fun i => fst (nth i B ([], []))) l.
+
+  (* symbolic description of an object: coefficient vector over the base
+     functions and the (multi)set of base functions added into it *)
+  Record info : Type := mkInfo { coef : list R; srcs : list nat }.
+
+  (* symbolic state: base functions created so far, one info per object *)
+  Definition tstate : Type := (list pwcR * list info)%type.
+  Definition tempty : tstate := ([], []).
+  Definition getinfo (t : tstate) (i : nat) : info := nth i (snd t) (mkInfo [] []).
+
+  Definition tstep (p : opR) (t : tstate) : tstate :=
+    match p with
+    | ONew xs ys =>
+        (fst t ++ [(xs, ys)],
+         snd t ++ [mkInfo (unitv (length (fst t))) [length (fst t)]])
+    | OCopy i => (fst t, snd t ++ [getinfo t i])
+    | OAdd i j =>
+        (fst t, upd (snd t) i
+                    (mkInfo (vadd (coef (getinfo t i)) (coef (getinfo t j)))
+                            (srcs (getinfo t i) ++ srcs (getinfo t j))))
+    | OMul i c =>
+        (fst t, upd (snd t) i (mkInfo (vscale c (coef (getinfo t i))) (srcs (getinfo t i))))
+    end.
+  Definition trun (ops : list opR) (t : tstate) : tstate :=
+    fold_left (fun t p => tstep p t) ops t.
+
+  (* the initial symbolic state for given base functions: unit vectors *)
+  Definition tbases (bs : list pwcR) : tstate :=
+    (bs, map (fun k => mkInfo (unitv k) [k]) (seq 0 (length bs))).
+
+  (* admissible operations: object ids exist, constructed functions are good *)
+  Definition op_ok (n : nat) (p : opR) : Prop :=
+    match p with
+    | OAdd i j => (i < n)%nat /\ (j < n)%nat
+    | OMul i _ => (i < n)%nat
+    | OCopy i => (i < n)%nat
+    | ONew xs ys => good (xs, ys)
+    end.
+  Definition nobj_after (p : opR) (n : nat) : nat :=
+    match p with OCopy _ | ONew _ _ => S n | _ => n end.
+  Fixpoint ops_ok (n : nat) (ops : list opR) : Prop :=
+    match ops with
+    | [] => True
+    | p :: r => op_ok n p /\ ops_ok (nobj_after p n) r
+    end.
+
+  (* function f is described by inf over the base functions B *)
+  Definition rel (B : list pwcR) (f : pwcR) (inf : info) : Prop :=
+    good f /\
+    (length (coef inf) <= length B)%nat /\
+    (forall t, x0 < t < xn -> generic B t ->
+       pwc_at ROps (fst f) (snd f) t = Some (dot (coef inf) (map (valat t) B))) /\
+    intof f = dot (coef inf) (map intof B) /\
+    Forall (fun i => (i < length B)%nat) (srcs inf) /\
+    fst f = sort_unique ROps (bps B (srcs inf)).
+
+  Definition hinv (v : @vstate R) (t : tstate) : Prop :=
+    snd v = [] /\ Forall good (fst t) /\ Forall2 (rel (fst t)) (fst v) (snd t).
+
+  Lemma rel_intro B f inf :
+    good f ->
+    (length (coef inf) <= length B)%nat ->
+    (forall t, x0 < t < xn -> generic B t ->
+       pwc_at ROps (fst f) (snd f) t = Some (dot (coef inf) (map (valat t) B))) ->
+    intof f = dot (coef inf) (map intof B) ->
+    Forall (fun i => (i < length B)%nat) (srcs inf) ->
+    fst f = sort_unique ROps (bps B (srcs inf)) ->
+    rel B f inf.
+  Proof. unfold rel. auto 10. Qed.
+
+  (* ---- rel is preserved by the four operations ---- *)
+
+  Lemma bps_in B l z : Forall (fun i => (i < length B)%nat) l -> In z (bps B l) ->
+    exists b, In b B /\ In z (fst b).
+  Proof.
+    intros Hl Hz. apply in_flat_map in Hz as (i & Hi & Hz).
+    rewrite Forall_forall in Hl. exists (nth i B ([], [])). split; auto. apply nth_In. auto.
+  Qed.
+
+  Lemma rel_generic B f inf t : rel B f inf -> generic B t -> ~ In t (fst f).
+  Proof.
+    intros (_ & _ & _ & _ & Hs & Hb) G Hc. rewrite Hb in Hc. apply (proj1 (sort_unique_In _ _)) in Hc.
+    destruct (bps_in _ _ _ Hs Hc) as (b & Hb1 & Hb2). exact (G b Hb1 Hb2).
+  Qed.
+
+  Lemma good_add f g : good f -> good g -> good (pwc_add_spec ROps f g).
+  Proof.
+    intros (Wf & F0 & FL) (Wg & G0 & GL).
+    assert (W : wf_pwc (pwc_add_spec ROps f g)) by (apply pwc_add_wf; auto; congruence).
+    split; auto. destruct W as [[Hs H2] _]. rewrite pwc_add_spec_unfold in *. cbn [fst] in *.
+    destruct (wf_first_in f Wf) as (I1 & I2 & _). rewrite F0 in I1. rewrite FL in I2.
+    apply sorted_ends; auto.
+    - apply sort_unique_In, in_or_app; auto.
+    - apply sort_unique_In, in_or_app; auto.
+    - intros z Hz. apply (proj1 (sort_unique_In _ _)) in Hz. apply in_app_or in Hz as [Hz|Hz].
+      + pose proof (wf_in_range f Wf z Hz). lra.
+      + pose proof (wf_in_range g Wg z Hz). lra.
+  Qed.
+
+  Lemma rel_add B f g a b : rel B f a -> rel B g b ->
+    rel B (pwc_add_spec ROps f g) (mkInfo (vadd (coef a) (coef b)) (srcs a ++ srcs b)).
+  Proof.
+    intros Rf Rg. pose proof Rf as (Gf & Lf & Pf & If & Sf & Bf).
+    pose proof Rg as (Gg & Lg & Pg & Ig & Sg & Bg).
+    pose proof Gf as (Wf & F0 & FL). pose proof Gg as (Wg & G0 & GL).
+    apply rel_intro; cbn [coef srcs].
+    - apply good_add; auto.
+    - rewrite vadd_length. lia.
+    - intros t Ht G. destruct (wf_first_in f Wf) as (I1 & I2 & _).
+      rewrite (add_spec_at f g t x0 xn); auto.
+      + rewrite (Pf t Ht G), (Pg t Ht G). cbn [optsum nadd ROps]. rewrite dot_vadd. reflexivity.
+      + apply in_or_app. left. congruence.
+      + apply in_or_app. left. congruence.
+      + intros Hc. apply in_app_or in Hc as [Hc|Hc].
+        * exact (rel_generic _ _ _ _ Rf G Hc).
+        * exact (rel_generic _ _ _ _ Rg G Hc).
+    - unfold intof at 1. rewrite pwc_add_integral by (auto; congruence).
+      fold (intof f). fold (intof g). rewrite If, Ig, dot_vadd. reflexivity.
+    - apply Forall_app. split; auto.
+    - rewrite pwc_add_spec_unfold. cbn [fst]. unfold bps. rewrite flat_map_app.
+      fold (bps B (srcs a)). fold (bps B (srcs b)).
+      apply sort_unique_char; [apply sort_unique_sorted|].
+      intros z. rewrite sort_unique_In, !in_app_iff, Bf, Bg, !sort_unique_In. reflexivity.
+  Qed.
+
+  Lemma rel_mul B f a c : rel B f a ->
+    rel B (pwc_mul ROps f c) (mkInfo (vscale c (coef a)) (srcs a)).
+  Proof.
+    intros (Gf & Lf & Pf & If & Sf & Bf). destruct Gf as ((Wx & Wl) & F0 & FL).
+    apply rel_intro; unfold pwc_mul; cbn [coef srcs fst snd]; auto.
+    - unfold good, wf_pwc. cbn [fst snd]. rewrite map_length. auto.
+    - unfold vscale. rewrite map_length. auto.
+    - intros t Ht G. cbn [nmul ROps]. rewrite pwc_at_map, (Pf t Ht G). cbn [option_map].
+      rewrite dot_vscale. reflexivity.
+    - unfold intof. cbn [fst snd nmul ROps]. rewrite int_all_scale, dot_vscale.
+      unfold intof in If. rewrite If. reflexivity.
+  Qed.
+
+  Lemma bps_ext B b l : Forall (fun i => (i < length B)%nat) l -> bps (B ++ [b]) l = bps B l.
+  Proof.
+    induction 1 as [|i l Hi H IH]; [reflexivity|].
+    unfold bps in *. cbn [flat_map]. rewrite IH, app_nth1 by auto. reflexivity.
+  Qed.
+
+  Lemma rel_ext B b f a : rel B f a -> rel (B ++ [b]) f a.
+  Proof.
+    intros (Gf & Lf & Pf & If & Sf & Bf). apply rel_intro; auto.
+    - rewrite app_length. lia.
+    - intros t Ht G. rewrite map_app, dot_app_short by (rewrite map_length; auto).
+      apply Pf; auto. intros b' Hb'. apply G. apply in_or_app; auto.
+    - rewrite map_app, dot_app_short by (rewrite map_length; auto). auto.
+    - eapply Forall_impl; [|exact Sf]. cbn. intros i Hi. rewrite app_length. lia.
+    - rewrite bps_ext; auto.
+  Qed.
+
+  Lemma rel_unit B k f : nth_error B k = Some f -> good f -> rel B f (mkInfo (unitv k) [k]).
+  Proof.
+    intros Hk Gf. pose proof (nth_error_lt _ _ _ Hk) as Lk.
+    pose proof Gf as (((Hs & H2) & Hl) & F0 & FL).
+    apply rel_intro; cbn [coef srcs].
+    - exact Gf.
+    - unfold unitv. rewrite app_length, repeat_length. cbn. lia.
+    - intros t Ht G. rewrite dot_unitv.
+      rewrite (nth_error_nth _ _ 0 (map_nth_error (valat t) _ _ Hk)).
+      unfold valat. destruct (pwc_at_some (fst f) (snd f) t) as [v ->]; auto.
+      + rewrite F0, FL. auto.
+      + apply G. eapply nth_error_In; eauto.
+    - rewrite dot_unitv. rewrite (nth_error_nth _ _ 0 (map_nth_error intof _ _ Hk)). reflexivity.
+    - constructor; auto.
+    - unfold bps. cbn [flat_map]. rewrite app_nil_r.
+      rewrite (nth_error_nth B k ([], []) Hk).
+      symmetry. apply sort_unique_char; auto. intros; reflexivity.
+  Qed.
+
+  Lemma getinfo_nth t i a : nth_error (snd t) i = Some a -> getinfo t i = a.
+  Proof. intros H. unfold getinfo. apply nth_error_nth; auto. Qed.
+
+  (* ---- one step ---- *)
+
+  Lemma hinv_step p v t : hinv v t -> op_ok (length (fst v)) p ->
+    hinv (vstep ROps p v) (tstep p t) /\
+    length (fst (vstep ROps p v)) = nobj_after p (length (fst v)).
+  Proof.
+    intros (He & HB & H2) Hp. destruct p as [i j|i c|i|xs ys]; cbn [op_ok] in Hp;
+      cbn [vstep tstep nobj_after].
+    - destruct Hp as [Li Lj].
+      destruct (nth_error (fst v) i) as [f|] eqn:Ei; [|apply nth_error_None in Ei; lia].
+      destruct (nth_error (fst v) j) as [g|] eqn:Ej; [|apply nth_error_None in Ej; lia].
+      destruct (F2_nth_l _ _ _ H2 i f Ei) as (a & Ea & Ra).
+      destruct (F2_nth_l _ _ _ H2 j g Ej) as (b & Eb & Rb).
+      pose proof Ra as ((Wf & F0 & FL) & _). pose proof Rb as ((Wg & G0 & GL) & _).
+      rewrite pwc_add_eq_spec by (auto; congruence).
+      rewrite (getinfo_nth _ _ _ Ea), (getinfo_nth _ _ _ Eb).
+      split; [|cbn [fst]; apply upd_length].
+      repeat split; cbn [fst snd]; auto.
+      apply F2_upd; auto. apply rel_add; auto.
+    - destruct (nth_error (fst v) i) as [f|] eqn:Ei; [|apply nth_error_None in Ei; lia].
+      destruct (F2_nth_l _ _ _ H2 i f Ei) as (a & Ea & Ra).
+      rewrite (getinfo_nth _ _ _ Ea).
+      split; [|cbn [fst]; apply upd_length].
+      repeat split; cbn [fst snd]; auto.
+      apply F2_upd; auto. apply rel_mul; auto.
+    - destruct (nth_error (fst v) i) as [f|] eqn:Ei; [|apply nth_error_None in Ei; lia].
+      destruct (F2_nth_l _ _ _ H2 i f Ei) as (a & Ea & Ra).
+      rewrite (getinfo_nth _ _ _ Ea).
+      split; [|cbn [fst]; rewrite app_length; cbn; lia].
+      repeat split; cbn [fst snd]; auto.
+      apply Forall2_app; auto.
+    - split; [|cbn [fst]; rewrite app_length; cbn; lia].
+      repeat split; cbn [fst snd]; auto.
+      + apply Forall_app. split; auto.
+      + apply Forall2_app.
+        * eapply F2_impl; [|exact H2]. intros f a. apply rel_ext.
+        * constructor; [|constructor]. apply rel_unit; auto. apply nth_error_snoc_eq.
+  Qed.
+
+  Theorem hinv_run : forall ops v t, hinv v t -> ops_ok (length (fst v)) ops ->
+    hinv (vrun ROps ops v) (trun ops t).
+  Proof.
+    induction ops as [|p ops IH]; intros v t H Ho; [exact H|].
+    destruct Ho as [Hp Ho]. destruct (hinv_step p v t H Hp) as [H' L'].
+    cbn [vrun trun fold_left]. apply IH; auto. rewrite L'. exact Ho.
+  Qed.
+
+  Lemma hinv_bases bs : Forall good bs -> hinv (bs, []) (tbases bs).
+  Proof.
+    intros Hb. unfold hinv, tbases. cbn [fst snd]. repeat split; auto.
+    apply F2_of_nth.
+    - rewrite map_length, seq_length. reflexivity.
+    - intros i f a Hf Ha. pose proof (nth_error_lt _ _ _ Hf) as Li.
+      assert (E : nth_error (map (fun k => mkInfo (unitv k) [k]) (seq 0 (length bs))) i
+                  = Some (mkInfo (unitv i) [i])).
+      { erewrite map_nth_error; [reflexivity|].
+        rewrite (nth_error_nth' _ 0%nat) by (rewrite seq_length; auto).
+        rewrite seq_nth by auto. reflexivity. }
+      rewrite E in Ha. injection Ha as <-. apply rel_unit; auto.
+      rewrite Forall_forall in Hb. apply Hb. eapply nth_error_In; eauto.
+  Qed.
+
+  (* the base functions of a run: the given ones and those created by ONew *)
+  Definition news (ops : list opR) : list pwcR :=
+    flat_map (fun p => match p with ONew xs ys => [(xs, ys)] | _ => [] end) ops.
+
+  Lemma trun_bases : forall ops t, fst (trun ops t) = fst t ++ news ops.
+  Proof.
+    induction ops as [|p ops IH]; intros t; [cbn; rewrite app_nil_r; reflexivity|].
+    cbn [trun fold_left]. change (fst (trun ops (tstep p t)) = fst t ++ news (p :: ops)).
+    rewrite IH. destruct p; cbn [tstep fst news flat_map app]; auto.
+    rewrite <- app_assoc. reflexivity.
+  Qed.
+
+  (* ---------------------------------------------------------------- *)
+  (* the three history theorems                                        *)
+
+  (* every function in every reachable state is well formed on [x0, xn]
+     and no operation raises an error *)
+  Theorem history_wf : forall bs ops, Forall good bs -> ops_ok (length bs) ops ->
+    let v := vrun ROps ops (bs, []) in
+    snd v = [] /\
+    Forall (fun f => wf_pwc f /\ nthF ROps (fst f) 0 = x0 /\ lastF ROps (fst f) = xn) (fst v).
+  Proof.
+    intros bs ops Hb Ho v.
+    destruct (hinv_run ops (bs, []) (tbases bs) (hinv_bases bs Hb) Ho) as (He & _ & H2).
+    split; auto. eapply F2_Forall_l; [|exact H2]. intros f a Hr. apply Hr.
+  Qed.
+
+  (* every object is the linear combination of the base functions given by
+     its symbolic coefficient vector: values away from base breakpoints, and
+     the integral *)
+  Theorem history_pointwise : forall bs ops, Forall good bs -> ops_ok (length bs) ops ->
+    let v := vrun ROps ops (bs, []) in
+    let tr := trun ops (tbases bs) in
+    let B := bs ++ news ops in
+    length (snd tr) = length (fst v) /\
+    forall k f, nth_error (fst v) k = Some f ->
+      exists inf, nth_error (snd tr) k = Some inf /\
+        (length (coef inf) <= length B)%nat /\
+        (forall t, x0 < t < xn -> generic B t ->
+           pwc_at ROps (fst f) (snd f) t = Some (dot (coef inf) (map (valat t) B))) /\
+        pwc_int_all ROps (fst f) (snd f) = dot (coef inf) (map intof B).
+  Proof.
+    intros bs ops Hb Ho v tr B.
+    destruct (hinv_run ops (bs, []) (tbases bs) (hinv_bases bs Hb) Ho) as (He & _ & H2).
+    fold v tr in H2. assert (EB : fst tr = B) by (unfold tr; rewrite trun_bases; reflexivity).
+    rewrite EB in H2. split; [symmetry; eapply F2_length; eauto|].
+    intros k f Hk. destruct (F2_nth_l _ _ _ H2 k f Hk) as (a & Ea & _ & Ra2 & Ra3 & Ra4 & _).
+    exists a. repeat split; auto.
+  Qed.
+
+  (* at a generic time every base function has a value, so [valat] is the
+     value of the base function *)
+  Lemma valat_value B t b : Forall good B -> In b B -> x0 < t < xn -> generic B t ->
+    pwc_at ROps (fst b) (snd b) t = Some (valat t b).
+  Proof.
+    intros HB Hb Ht G. rewrite Forall_forall in HB. destruct (HB b Hb) as (((Hs & H2) & Hl) & F0 & FL).
+    unfold valat. destruct (pwc_at_some (fst b) (snd b) t) as [v ->]; auto.
+    rewrite F0, FL. auto.
+  Qed.
+
+  (* breakpoints: strictly increasing, end points x0 and xn, and exactly the
+     union of the breakpoints of the base functions added into the object
+     (a base function scaled by 0 still contributes its breakpoints) *)
+  Theorem history_breakpoints : forall bs ops, Forall good bs -> ops_ok (length bs) ops ->
+    let v := vrun ROps ops (bs, []) in
+    let tr := trun ops (tbases bs) in
+    let B := bs ++ news ops in
+    forall k f, nth_error (fst v) k = Some f ->
+      exists inf, nth_error (snd tr) k = Some inf /\
+        Forall (fun i => (i < length B)%nat) (srcs inf) /\
+        fst f = sort_unique ROps (bps B (srcs inf)) /\
+        ssorted (fst f) /\ nthF ROps (fst f) 0 = x0 /\ lastF ROps (fst f) = xn /\
+        (forall z, In z (fst f) <->
+           exists i, In i (srcs inf) /\ In z (fst (nth i B ([], [])))).
+  Proof.
+    intros bs ops Hb Ho v tr B k f Hk.
+    destruct (hinv_run ops (bs, []) (tbases bs) (hinv_bases bs Hb) Ho) as (He & _ & H2).
+    fold v tr in H2. assert (EB : fst tr = B) by (unfold tr; rewrite trun_bases; reflexivity).
+    rewrite EB in H2.
+    destruct (F2_nth_l _ _ _ H2 k f Hk) as (a & Ea & Ga & _ & _ & _ & Sa & Ba).
+    exists a. destruct Ga as (((Hs & _) & _) & F0 & FL). repeat split; auto.
+    - rewrite Ba at 1. intros Hz. apply (proj1 (sort_unique_In _ _)) in Hz. apply in_flat_map in Hz. exact Hz.
+    - intros Hz. rewrite Ba. apply sort_unique_In. apply in_flat_map. exact Hz.
+  Qed.
+
+  (* how the symbolic descriptions evolve (by definition of [tstep]) *)
+  Lemma tstep_add t i j : tstep (OAdd i j) t =
+    (fst t, upd (snd t) i (mkInfo (vadd (coef (getinfo t i)) (coef (getinfo t j)))
+                                  (srcs (getinfo t i) ++ srcs (getinfo t j)))).
+  Proof. reflexivity. Qed.
+  Lemma tstep_mul t i c : tstep (OMul i c) t =
+    (fst t, upd (snd t) i (mkInfo (vscale c (coef (getinfo t i))) (srcs (getinfo t i)))).
+  Proof. reflexivity. Qed.
+  Lemma tstep_copy t i : tstep (OCopy i) t = (fst t, snd t ++ [getinfo t i]).
+  Proof. reflexivity. Qed.
+  Lemma tstep_new t xs ys : tstep (ONew xs ys) t =
+    (fst t ++ [(xs, ys)], snd t ++ [mkInfo (unitv (length (fst t))) [length (fst t)]]).
+  Proof. reflexivity. Qed.
+
+End PwcHistory.
+
+(* ================================================================== *)
+(* Part D: value-level histories of piecewise-linear functions          *)
+
+Module P := Lem_Pwl.
+
+(* ---- limits of a function given on a refinement ---- *)
+
+Lemma pwl_right_pieces (Fl Gr : R * R -> R) bs : ssorted bs -> forall a b t,
+  In (a, b) (pieces bs) -> a <= t < b ->
+  pwl_right ROps bs (map Fl (pieces bs)) (map Gr (pieces bs)) t
+  = Some (lin ROps a b (Fl (a, b)) (Gr (a, b)) t).
+Proof.
+  induction bs as [|u [|v r] IH]; intros Hs a b t Hq Ht; [destruct Hq|destruct Hq|].
+  rewrite pieces_cons2 in *. cbn [map]. rewrite P.pwl_right_cons. destruct Hq as [E|Hq].
+  - injection E as -> ->. rewrite P.nleb_t, P.Rltb_t by lra. reflexivity.
+  - pose proof (ssorted_tl _ _ Hs) as Hs1.
+    destruct (P.pieces_in _ a b Hs1 Hq) as (_ & Ia & _ & _).
+    pose proof (P.ssorted_head_min v r a Hs1 Ia).
+    rewrite (P.Rltb_f t v) by lra. rewrite andb_false_r. apply IH; auto.
+Qed.
+
+Lemma pwl_left_pieces (Fl Gr : R * R -> R) bs : ssorted bs -> forall a b t,
+  In (a, b) (pieces bs) -> a < t <= b ->
+  pwl_left ROps bs (map Fl (pieces bs)) (map Gr (pieces bs)) t
+  = Some (lin ROps a b (Fl (a, b)) (Gr (a, b)) t).
+Proof.
+  induction bs as [|u [|v r] IH]; intros Hs a b t Hq Ht; [destruct Hq|destruct Hq|].
+  rewrite pieces_cons2 in *. cbn [map]. rewrite P.pwl_left_cons. destruct Hq as [E|Hq].
+  - injection E as -> ->. rewrite P.nleb_t, P.Rltb_t by lra. reflexivity.
+  - pose proof (ssorted_tl _ _ Hs) as Hs1.
+    destruct (P.pieces_in _ a b Hs1 Hq) as (_ & Ia & _ & _).
+    pose proof (P.ssorted_head_min v r a Hs1 Ia).
+    rewrite (P.nleb_f t v) by lra. rewrite andb_false_r. apply IH; auto.
+Qed.
+
+Lemma locate_r bs : ssorted bs -> forall t, nthF ROps bs 0 <= t < lastF ROps bs ->
+  exists a b, In (a, b) (pieces bs) /\ a <= t < b.
+Proof.
+  induction bs as [|u [|v r] IH]; intros Hs t Ht.
+  - cbn in Ht. lra.
+  - rewrite nthF_0, lastF_one in Ht. lra.
+  - rewrite nthF_0, lastF_cons2 in Ht. rewrite pieces_cons2.
+    destruct (Rlt_le_dec t v) as [L|L].
+    + exists u, v. split; [left; auto|lra].
+    + destruct (IH (ssorted_tl _ _ Hs) t) as (a & b & Hq & Hab).
+      * rewrite nthF_0. lra.
+      * exists a, b. split; auto. right; auto.
+Qed.
+
+Lemma locate_l bs : ssorted bs -> forall t, nthF ROps bs 0 < t <= lastF ROps bs ->
+  exists a b, In (a, b) (pieces bs) /\ a < t <= b.
+Proof.
+  induction bs as [|u [|v r] IH]; intros Hs t Ht.
+  - cbn in Ht. lra.
+  - rewrite nthF_0, lastF_one in Ht. lra.
+  - rewrite nthF_0, lastF_cons2 in Ht. rewrite pieces_cons2.
+    destruct (Rle_lt_dec t v) as [L|L].
+    + exists u, v. split; [left; auto|lra].
+    + destruct (IH (ssorted_tl _ _ Hs) t) as (a & b & Hq & Hab).
+      * rewrite nthF_0. lra.
+      * exists a, b. split; auto. right; auto.
+Qed.
+
+(* an affine function re-interpolated between two of its values *)
+Lemma lin_relin X0 X1 Ya Yb a b t : X0 < X1 -> a < b ->
+  lin ROps a b (lin ROps X0 X1 Ya Yb a) (lin ROps X0 X1 Ya Yb b) t = lin ROps X0 X1 Ya Yb t.
+Proof. intros H1 H2. rewrite !P.lin_R. field. lra. Qed.
+
+(* on a piece of a refinement the function is one affine function *)
+Lemma pwl_piece_lin xs y1 y2 bs a b : wf_pwl (xs, y1, y2) -> ssorted bs ->
+  (forall x, In x xs -> In x bs) ->
+  (forall x, In x bs -> nth 0 xs 0 <= x /\ x <= last xs 0) ->
+  In (a, b) (pieces bs) ->
+  exists X0 X1 Ya Yb, X0 < X1 /\
+    (forall t, a <= t < b -> pwl_right ROps xs y1 y2 t = Some (lin ROps X0 X1 Ya Yb t)) /\
+    (forall t, a < t <= b -> pwl_left ROps xs y1 y2 t = Some (lin ROps X0 X1 Ya Yb t)).
+Proof.
+  intros W Sb Sub Rng Hp. apply P.wf_pwl_inv in W as (Ss & Hn & L1 & L2).
+  destruct (P.pieces_in bs a b Sb Hp) as (Hab & Ia & Ib & Cons).
+  destruct (Rng a Ia) as [A1 A2]. destruct (Rng b Ib) as [B1 B2].
+  destruct (P.locate xs a Ss Hn A1 ltac:(lra)) as (k & K & Ka & Kb).
+  assert (Hb : b <= nth (S k) xs 0).
+  { destruct (Cons (nth (S k) xs 0)); [apply Sub, nth_In; lia | lra | auto]. }
+  exists (nth k xs 0), (nth (S k) xs 0), (nth k y1 0), (nth k y2 0). split; [lra|]. split.
+  - intros t Ht. apply P.pwl_right_at; auto; try lia; lra.
+  - intros t Ht. apply P.pwl_left_at; auto; try lia; lra.
+Qed.
+
+Lemma pwl_right_some xs y1 y2 t : wf_pwl (xs, y1, y2) ->
+  nthF ROps xs 0 <= t < lastF ROps xs -> exists v, pwl_right ROps xs y1 y2 t = Some v.
+Proof.
+  intros W Ht. pose proof W as W'. apply P.wf_pwl_inv in W' as (Ss & Hn & L1 & L2).
+  destruct (locate_r xs Ss t Ht) as (a & b & Hq & Hab).
+  destruct (pwl_piece_lin xs y1 y2 xs a b W Ss) as (X0 & X1 & Ya & Yb & _ & Hr & _); auto.
+  - intros x Hx. split; [apply P.nth0_min; auto|].
+    rewrite P.last_nth. apply P.nth_last_max; auto.
+  - eauto.
+Qed.
+
+Lemma pwl_left_some xs y1 y2 t : wf_pwl (xs, y1, y2) ->
+  nthF ROps xs 0 < t <= lastF ROps xs -> exists v, pwl_left ROps xs y1 y2 t = Some v.
+Proof.
+  intros W Ht. pose proof W as W'. apply P.wf_pwl_inv in W' as (Ss & Hn & L1 & L2).
+  destruct (locate_l xs Ss t Ht) as (a & b & Hq & Hab).
+  destruct (pwl_piece_lin xs y1 y2 xs a b W Ss) as (X0 & X1 & Ya & Yb & _ & _ & Hl); auto.
+  - intros x Hx. split; [apply P.nth0_min; auto|].
+    rewrite P.last_nth. apply P.nth_last_max; auto.
+  - eauto.
+Qed.
+
+Lemma pwl_int_all_scale c xs : forall y1 y2,
+  pwl_int_all ROps xs (map (fun y => y * c) y1) (map (fun y => y * c) y2)
+  = pwl_int_all ROps xs y1 y2 * c.
+Proof.
+  induction xs as [|a xs IH]; intros y1 y2; [cbn; lra|].
+  destruct xs as [|b r]; [cbn; lra|].
+  destruct y1 as [|u y1]; [cbn [map]; rewrite !P.int_all_nil1; lra|].
+  destruct y2 as [|w y2]; [cbn [map]; rewrite !P.int_all_nil2; lra|].
+  cbn [map]. rewrite !P.int_all_cons, IH. field.
+Qed.
+
+Lemma lin_add a b p q r s t : a < b ->
+  lin ROps a b (p + q) (r + s) t = lin ROps a b p r t + lin ROps a b q s t.
+Proof. intros H. rewrite !P.lin_R. field. lra. Qed.
+
+(* the sum specification: breakpoints, end points, one-sided limits *)
+Lemma pwl_add_spec_limits f g x0 xn : wf_pwl f -> wf_pwl g ->
+  nthF ROps (fst (fst f)) 0 = x0 -> lastF ROps (fst (fst f)) = xn ->
+  nthF ROps (fst (fst g)) 0 = x0 -> lastF ROps (fst (fst g)) = xn ->
+  let h := pwl_add_spec ROps f g in
+  fst (fst h) = sort_unique ROps (fst (fst f) ++ fst (fst g)) /\
+  nthF ROps (fst (fst h)) 0 = x0 /\ lastF ROps (fst (fst h)) = xn /\
+  (forall t rf rg, x0 <= t < xn ->
+     pwl_right ROps (fst (fst f)) (snd (fst f)) (snd f) t = Some rf ->
+     pwl_right ROps (fst (fst g)) (snd (fst g)) (snd g) t = Some rg ->
+     pwl_right ROps (fst (fst h)) (snd (fst h)) (snd h) t = Some (rf + rg)) /\
+  (forall t lf lg, x0 < t <= xn ->
+     pwl_left ROps (fst (fst f)) (snd (fst f)) (snd f) t = Some lf ->
+     pwl_left ROps (fst (fst g)) (snd (fst g)) (snd g) t = Some lg ->
+     pwl_left ROps (fst (fst h)) (snd (fst h)) (snd h) t = Some (lf + lg)).
+Proof.
+  intros W1 W2 F0 FL G0 GL h.
+  pose proof (P.pwl_add_spec_wf f g W1) as Wh. fold h in Wh.
+  destruct f as [[x1 a1] b1]. destruct g as [[x2 a2] b2]. cbn [fst snd] in *.
+  unfold pwl_add_spec in h. cbn [fst snd] in h.
+  pose proof W1 as W1'. pose proof W2 as W2'.
+  apply P.wf_pwl_inv in W1' as (Ss1 & Hn1 & La1 & Lb1).
+  apply P.wf_pwl_inv in W2' as (Ss2 & Hn2 & La2 & Lb2).
+  set (bs := sort_unique ROps (x1 ++ x2)) in *.
+  assert (Sb : ssorted bs) by apply sort_unique_sorted.
+  assert (Ib : forall x, In x bs <-> In x x1 \/ In x x2).
+  { intros x. unfold bs. rewrite sort_unique_In, in_app_iff. tauto. }
+  change (nth 0 x1 0 = x0) in F0. change (last x1 0 = xn) in FL.
+  change (nth 0 x2 0 = x0) in G0. change (last x2 0 = xn) in GL.
+  assert (R1 : forall x, In x x1 -> nth 0 x1 0 <= x /\ x <= last x1 0).
+  { intros x Hx. split; [apply P.nth0_min; auto | rewrite P.last_nth; apply P.nth_last_max; auto]. }
+  assert (R2 : forall x, In x x2 -> nth 0 x2 0 <= x /\ x <= last x2 0).
+  { intros x Hx. split; [apply P.nth0_min; auto | rewrite P.last_nth; apply P.nth_last_max; auto]. }
+  assert (Rb : forall x, In x bs -> x0 <= x <= xn).
+  { intros x Hx. apply Ib in Hx. destruct Hx as [Hx|Hx]; [apply R1 in Hx|apply R2 in Hx]; lra. }
+  assert (I0 : In x0 bs) by (apply Ib; left; rewrite <- F0; apply nth_In; lia).
+  assert (IT : In xn bs).
+  { apply Ib; left. rewrite <- FL, P.last_nth. apply nth_In; lia. }
+  assert (Lb : (2 <= length bs)%nat) by (destruct Wh as [[_ Hl] _]; exact Hl).
+  destruct (sorted_ends bs x0 xn Sb I0 IT Rb Lb) as [E0 EL].
+  unfold h. cbn [fst snd]. split; [reflexivity|]. split; [exact E0|]. split; [exact EL|].
+  assert (Sub1 : forall x, In x x1 -> In x bs) by (intros; apply Ib; auto).
+  assert (Sub2 : forall x, In x x2 -> In x bs) by (intros; apply Ib; auto).
+  assert (Rg1 : forall x, In x bs -> nth 0 x1 0 <= x /\ x <= last x1 0).
+  { intros x Hx. apply Rb in Hx. lra. }
+  assert (Rg2 : forall x, In x bs -> nth 0 x2 0 <= x /\ x <= last x2 0).
+  { intros x Hx. apply Rb in Hx. lra. }
+  split.
+  - intros t rf rg Ht Hf Hg.
+    destruct (locate_r bs Sb t) as (a & b & Hq & Hab); [rewrite E0, EL; auto|].
+    destruct (P.pieces_in bs a b Sb Hq) as (Lab & _).
+    rewrite (pwl_right_pieces _ _ bs Sb a b t Hq Hab). cbn [fst snd].
+    destruct (pwl_piece_lin x1 a1 b1 bs a b W1 Sb Sub1 Rg1 Hq) as (X0 & X1 & Ya & Yb & HX & Hr1 & Hl1).
+    destruct (pwl_piece_lin x2 a2 b2 bs a b W2 Sb Sub2 Rg2 Hq) as (X0' & X1' & Ya' & Yb' & HX' & Hr2 & Hl2).
+    rewrite (Hr1 a), (Hr2 a), (Hl1 b), (Hl2 b) by lra.
+    rewrite (Hr1 t Hab) in Hf. rewrite (Hr2 t Hab) in Hg. injection Hf as <-. injection Hg as <-.
+    cbn [optsum nadd ROps]. rewrite lin_add by auto. rewrite !lin_relin by auto. reflexivity.
+  - intros t lf lg Ht Hf Hg.
+    destruct (locate_l bs Sb t) as (a & b & Hq & Hab); [rewrite E0, EL; auto|].
+    destruct (P.pieces_in bs a b Sb Hq) as (Lab & _).
+    rewrite (pwl_left_pieces _ _ bs Sb a b t Hq Hab). cbn [fst snd].
+    destruct (pwl_piece_lin x1 a1 b1 bs a b W1 Sb Sub1 Rg1 Hq) as (X0 & X1 & Ya & Yb & HX & Hr1 & Hl1).
+    destruct (pwl_piece_lin x2 a2 b2 bs a b W2 Sb Sub2 Rg2 Hq) as (X0' & X1' & Ya' & Yb' & HX' & Hr2 & Hl2).
+    rewrite (Hr1 a), (Hr2 a), (Hl1 b), (Hl2 b) by lra.
+    rewrite (Hl1 t Hab) in Hf. rewrite (Hl2 t Hab) in Hg. injection Hf as <-. injection Hg as <-.
+    cbn [optsum nadd ROps]. rewrite lin_add by auto. rewrite !lin_relin by auto. reflexivity.
+Qed.
+
+Section PwlHistory.
+  Variables x0 xn : R.
+
+  Local Notation pwlR := (@pwl R).
+  Local Notation lopR := (@lop R).
+
+  Definition xs_of (f : pwlR) : list R := fst (fst f).
+  Definition rlim_of (f : pwlR) (t : R) : option R :=
+    pwl_right ROps (fst (fst f)) (snd (fst f)) (snd f) t.
+  Definition llim_of (f : pwlR) (t : R) : option R :=
+    pwl_left ROps (fst (fst f)) (snd (fst f)) (snd f) t.
+
+  Definition good_l (f : pwlR) : Prop :=
+    wf_pwl f /\ nthF ROps (xs_of f) 0 = x0 /\ lastF ROps (xs_of f) = xn.
+
+  Definition rlim (t : R) (b : pwlR) : R := optval (rlim_of b t).
+  Definition llim (t : R) (b : pwlR) : R := optval (llim_of b t).
+  Definition intof_l (b : pwlR) : R := pwl_int_all ROps (fst (fst b)) (snd (fst b)) (snd b).
+  Definition bps_l (B : list pwlR) (l : list nat) : list R :=
+    flat_map (fun i => xs_of (nth i B ([], [], []))) l.
+
+  Definition ltstate : Type := (list pwlR * list info)%type.
+  Definition lgetinfo (t : ltstate) (i : nat) : info := nth i (snd t) (mkInfo [] []).
+
+  Definition ltstep (p : lopR) (t : ltstate) : ltstate :=
+    match p with
+    | LNew xs y1s y2s =>
+        (fst t ++ [(xs, y1s, y2s)],
+         snd t ++ [mkInfo (unitv (length (fst t))) [length (fst t)]])
+    | LCopy i => (fst t, snd t ++ [lgetinfo t i])
+    | LAdd i j =>
+        (fst t, upd (snd t) i
+                    (mkInfo (vadd (coef (lgetinfo t i)) (coef (lgetinfo t j)))
+                            (srcs (lgetinfo t i) ++ srcs (lgetinfo t j))))
+    | LMul i c =>
+        (fst t, upd (snd t) i (mkInfo (vscale c (coef (lgetinfo t i))) (srcs (lgetinfo t i))))
+    end.
+  Definition ltrun (ops : list lopR) (t : ltstate) : ltstate :=
+    fold_left (fun t p => ltstep p t) ops t.
+
+  Definition ltbases (bs : list pwlR) : ltstate :=
+    (bs, map (fun k => mkInfo (unitv k) [k]) (seq 0 (length bs))).
+
+  Definition lop_ok (n : nat) (p : lopR) : Prop :=
+    match p with
+    | LAdd i j => (i < n)%nat /\ (j < n)%nat
+    | LMul i _ => (i < n)%nat
+    | LCopy i => (i < n)%nat
+    | LNew xs y1s y2s => good_l (xs, y1s, y2s)
+    end.
+  Definition lnobj_after (p : lopR) (n : nat) : nat :=
+    match p with LCopy _ | LNew _ _ _ => S n | _ => n end.
+  Fixpoint lops_ok (n : nat) (ops : list lopR) : Prop :=
+    match ops with
+    | [] => True
+    | p :: r => lop_ok n p /\ lops_ok (lnobj_after p n) r
+    end.
+
+  Definition rel_l (B : list pwlR) (f : pwlR) (inf : info) : Prop :=
+    good_l f /\
+    (length (coef inf) <= length B)%nat /\
+    (forall t, x0 <= t < xn -> rlim_of f t = Some (dot (coef inf) (map (rlim t) B))) /\
+    (forall t, x0 < t <= xn -> llim_of f t = Some (dot (coef inf) (map (llim t) B))) /\
+    intof_l f = dot (coef inf) (map intof_l B) /\
+    Forall (fun i => (i < length B)%nat) (srcs inf) /\
+    xs_of f = sort_unique ROps (bps_l B (srcs inf)).
+
+  Lemma rel_l_intro B f inf :
+    good_l f ->
+    (length (coef inf) <= length B)%nat ->
+    (forall t, x0 <= t < xn -> rlim_of f t = Some (dot (coef inf) (map (rlim t) B))) ->
+    (forall t, x0 < t <= xn -> llim_of f t = Some (dot (coef inf) (map (llim t) B))) ->
+    intof_l f = dot (coef inf) (map intof_l B) ->
+    Forall (fun i => (i < length B)%nat) (srcs inf) ->
+    xs_of f = sort_unique ROps (bps_l B (srcs inf)) ->
+    rel_l B f inf.
+  Proof. unfold rel_l. auto 10. Qed.
+
+  Definition lhinv (v : @lstate R) (t : ltstate) : Prop :=
+    snd v = [] /\ Forall good_l (fst t) /\ Forall2 (rel_l (fst t)) (fst v) (snd t).
+
+  Lemma rel_l_add B f g a b : rel_l B f a -> rel_l B g b ->
+    rel_l B (pwl_add_spec ROps f g) (mkInfo (vadd (coef a) (coef b)) (srcs a ++ srcs b)).
+  Proof.
+    intros (Gf & Lf & Pf & Qf & If & Sf & Bf) (Gg & Lg & Pg & Qg & Ig & Sg & Bg).
+    pose proof Gf as (Wf & F0 & FL). pose proof Gg as (Wg & G0 & GL).
+    destruct (pwl_add_spec_limits f g x0 xn Wf Wg F0 FL G0 GL) as (Hx & H0 & HL & Hr & Hl).
+    apply rel_l_intro; cbn [coef srcs].
+    - split; [apply P.pwl_add_spec_wf; auto|]. split; auto.
+    - rewrite vadd_length. lia.
+    - intros t Ht. unfold rlim_of. rewrite (Hr t _ _ Ht (Pf t Ht) (Pg t Ht)).
+      rewrite dot_vadd. reflexivity.
+    - intros t Ht. unfold llim_of. rewrite (Hl t _ _ Ht (Qf t Ht) (Qg t Ht)).
+      rewrite dot_vadd. reflexivity.
+    - unfold intof_l at 1.
+      pose proof (P.pwl_add_integral f g Wf Wg) as HI. cbv zeta in HI.
+      rewrite HI by (unfold xs_of in *; congruence).
+      fold (intof_l f). fold (intof_l g). rewrite If, Ig, dot_vadd. reflexivity.
+    - apply Forall_app. split; auto.
+    - unfold xs_of at 1. rewrite Hx. unfold bps_l. rewrite flat_map_app.
+      fold (bps_l B (srcs a)). fold (bps_l B (srcs b)). fold (xs_of f). fold (xs_of g).
+      apply sort_unique_char; [apply sort_unique_sorted|].
+      intros z. rewrite sort_unique_In, !in_app_iff, Bf, Bg, !sort_unique_In. reflexivity.
+  Qed.
+
+  Lemma rel_l_mul B f a c : rel_l B f a ->
+    rel_l B (pwl_mul ROps f c) (mkInfo (vscale c (coef a)) (srcs a)).
+  Proof.
+    intros (Gf & Lf & Pf & Qf & If & Sf & Bf). destruct Gf as (Wf & F0 & FL).
+    destruct f as [[xs y1] y2]. unfold xs_of in *. cbn [fst snd] in *.
+    apply P.wf_pwl_inv in Wf as (Ss & Hn & L1 & L2).
+    apply rel_l_intro; unfold pwl_mul; cbn [coef srcs fst snd nmul ROps]; auto.
+    - unfold good_l, wf_pwl, wf_x, xs_of. cbn [fst snd]. rewrite !map_length. auto.
+    - unfold vscale. rewrite map_length. auto.
+    - intros t Ht. unfold rlim_of in *. cbn [fst snd] in *.
+      rewrite P.pwl_mul_right, (Pf t Ht). cbn [option_map]. rewrite dot_vscale. f_equal. ring.
+    - intros t Ht. unfold llim_of in *. cbn [fst snd] in *.
+      rewrite P.pwl_mul_left, (Qf t Ht). cbn [option_map]. rewrite dot_vscale. f_equal. ring.
+    - unfold intof_l in *. cbn [fst snd] in *.
+      rewrite pwl_int_all_scale, dot_vscale, If. reflexivity.
+  Qed.
+
+  Lemma bps_l_ext B b l : Forall (fun i => (i < length B)%nat) l -> bps_l (B ++ [b]) l = bps_l B l.
+  Proof.
+    induction 1 as [|i l Hi H IH]; [reflexivity|].
+    unfold bps_l in *. cbn [flat_map]. rewrite IH, app_nth1 by auto. reflexivity.
+  Qed.
+
+  Lemma rel_l_ext B b f a : rel_l B f a -> rel_l (B ++ [b]) f a.
+  Proof.
+    intros (Gf & Lf & Pf & Qf & If & Sf & Bf). apply rel_l_intro; auto.
+    - rewrite app_length. lia.
+    - intros t Ht. rewrite map_app, dot_app_short by (rewrite map_length; auto). auto.
+    - intros t Ht. rewrite map_app, dot_app_short by (rewrite map_length; auto). auto.
+    - rewrite map_app, dot_app_short by (rewrite map_length; auto). auto.
+    - eapply Forall_impl; [|exact Sf]. cbn. intros i Hi. rewrite app_length. lia.
+    - rewrite bps_l_ext; auto.
+  Qed.
+
+  Lemma rel_l_unit B k f : nth_error B k = Some f -> good_l f -> rel_l B f (mkInfo (unitv k) [k]).
+  Proof.
+    intros Hk Gf. pose proof (nth_error_lt _ _ _ Hk) as Lk.
+    pose proof Gf as (Wf & F0 & FL).
+    apply rel_l_intro; cbn [coef srcs].
+    - exact Gf.
+    - unfold unitv. rewrite app_length, repeat_length. cbn. lia.
+    - intros t Ht. rewrite dot_unitv.
+      rewrite (nth_error_nth _ _ 0 (map_nth_error (rlim t) _ _ Hk)).
+      unfold rlim, rlim_of. destruct f as [[xs y1] y2]. unfold xs_of in *. cbn [fst snd] in *.
+      destruct (pwl_right_some xs y1 y2 t Wf) as [v ->]; [rewrite F0, FL; auto|reflexivity].
+    - intros t Ht. rewrite dot_unitv.
+      rewrite (nth_error_nth _ _ 0 (map_nth_error (llim t) _ _ Hk)).
+      unfold llim, llim_of. destruct f as [[xs y1] y2]. unfold xs_of in *. cbn [fst snd] in *.
+      destruct (pwl_left_some xs y1 y2 t Wf) as [v ->]; [rewrite F0, FL; auto|reflexivity].
+    - rewrite dot_unitv. rewrite (nth_error_nth _ _ 0 (map_nth_error intof_l _ _ Hk)). reflexivity.
+    - constructor; auto.
+    - unfold bps_l. cbn [flat_map]. rewrite app_nil_r.
+      rewrite (nth_error_nth B k ([], [], []) Hk).
+      symmetry. apply sort_unique_char; [apply Wf|]. intros; reflexivity.
+  Qed.
+
+  Lemma lgetinfo_nth t i a : nth_error (snd t) i = Some a -> lgetinfo t i = a.
+  Proof. intros H. unfold lgetinfo. apply nth_error_nth; auto. Qed.
+
+  Lemma lhinv_step p v t : lhinv v t -> lop_ok (length (fst v)) p ->
+    lhinv (lstep ROps p v) (ltstep p t) /\
+    length (fst (lstep ROps p v)) = lnobj_after p (length (fst v)).
+  Proof.
+    intros (He & HB & H2) Hp. destruct p as [i j|i c|i|xs y1s y2s]; cbn [lop_ok] in Hp;
+      cbn [lstep ltstep lnobj_after].
+    - destruct Hp as [Li Lj].
+      destruct (nth_error (fst v) i) as [f|] eqn:Ei; [|apply nth_error_None in Ei; lia].
+      destruct (nth_error (fst v) j) as [g|] eqn:Ej; [|apply nth_error_None in Ej; lia].
+      destruct (F2_nth_l _ _ _ H2 i f Ei) as (a & Ea & Ra).
+      destruct (F2_nth_l _ _ _ H2 j g Ej) as (b & Eb & Rb).
+      pose proof Ra as ((Wf & F0 & FL) & _). pose proof Rb as ((Wg & G0 & GL) & _).
+      rewrite P.pwl_add_eq_spec by (unfold xs_of in *; auto; congruence).
+      rewrite (lgetinfo_nth _ _ _ Ea), (lgetinfo_nth _ _ _ Eb).
+      split; [|cbn [fst]; apply upd_length].
+      repeat split; cbn [fst snd]; auto.
+      apply F2_upd; auto. apply rel_l_add; auto.
+    - destruct (nth_error (fst v) i) as [f|] eqn:Ei; [|apply nth_error_None in Ei; lia].
+      destruct (F2_nth_l _ _ _ H2 i f Ei) as (a & Ea & Ra).
+      rewrite (lgetinfo_nth _ _ _ Ea).
+      split; [|cbn [fst]; apply upd_length].
+      repeat split; cbn [fst snd]; auto.
+      apply F2_upd; auto. apply rel_l_mul; auto.
+    - destruct (nth_error (fst v) i) as [f|] eqn:Ei; [|apply nth_error_None in Ei; lia].
+      destruct (F2_nth_l _ _ _ H2 i f Ei) as (a & Ea & Ra).
+      rewrite (lgetinfo_nth _ _ _ Ea).
+      split; [|cbn [fst]; rewrite app_length; cbn; lia].
+      repeat split; cbn [fst snd]; auto.
+      apply Forall2_app; auto.
+    - split; [|cbn [fst]; rewrite app_length; cbn; lia].
+      repeat split; cbn [fst snd]; auto.
+      + apply Forall_app. split; auto.
+      + apply Forall2_app.
+        * eapply F2_impl; [|exact H2]. intros f a. apply rel_l_ext.
+        * constructor; [|constructor]. apply rel_l_unit; auto. apply nth_error_snoc_eq.
+  Qed.
+
+  Theorem lhinv_run : forall ops v t, lhinv v t -> lops_ok (length (fst v)) ops ->
+    lhinv (lrun ROps ops v) (ltrun ops t).
+  Proof.
+    induction ops as [|p ops IH]; intros v t H Ho; [exact H|].
+    destruct Ho as [Hp Ho]. destruct (lhinv_step p v t H Hp) as [H' L'].
+    cbn [lrun ltrun fold_left]. apply IH; auto. rewrite L'. exact Ho.
+  Qed.
+
+  Lemma lhinv_bases bs : Forall good_l bs -> lhinv (bs, []) (ltbases bs).
+  Proof.
+    intros Hb. unfold lhinv, ltbases. cbn [fst snd]. repeat split; auto.
+    apply F2_of_nth.
+    - rewrite map_length, seq_length. reflexivity.
+    - intros i f a Hf Ha. pose proof (nth_error_lt _ _ _ Hf) as Li.
+      assert (E : nth_error (map (fun k => mkInfo (unitv k) [k]) (seq 0 (length bs))) i
+                  = Some (mkInfo (unitv i) [i])).
+      { erewrite map_nth_error; [reflexivity|].
+        rewrite (nth_error_nth' _ 0%nat) by (rewrite seq_length; auto).
+        rewrite seq_nth by auto. reflexivity. }
+      rewrite E in Ha. injection Ha as <-. apply rel_l_unit; auto.
+      rewrite Forall_forall in Hb. apply Hb. eapply nth_error_In; eauto.
+  Qed.
+
+  Definition lnews (ops : list lopR) : list pwlR :=
+    flat_map (fun p => match p with LNew xs y1s y2s => [(xs, y1s, y2s)] | _ => [] end) ops.
+
+  Lemma ltrun_bases : forall ops t, fst (ltrun ops t) = fst t ++ lnews ops.
+  Proof.
+    induction ops as [|p ops IH]; intros t; [cbn; rewrite app_nil_r; reflexivity|].
+    cbn [ltrun fold_left]. change (fst (ltrun ops (ltstep p t)) = fst t ++ lnews (p :: ops)).
+    rewrite IH. destruct p; cbn [ltstep fst lnews flat_map app]; auto.
+    rewrite <- app_assoc. reflexivity.
+  Qed.
+
+  Theorem history_wf_pwl : forall bs ops, Forall good_l bs -> lops_ok (length bs) ops ->
+    let v := lrun ROps ops (bs, []) in
+    snd v = [] /\
+    Forall (fun f => wf_pwl f /\ nthF ROps (fst (fst f)) 0 = x0 /\ lastF ROps (fst (fst f)) = xn)
+           (fst v).
+  Proof.
+    intros bs ops Hb Ho v.
+    destruct (lhinv_run ops (bs, []) (ltbases bs) (lhinv_bases bs Hb) Ho) as (He & _ & H2).
+    split; auto. eapply F2_Forall_l; [|exact H2]. intros f a Hr. apply Hr.
+  Qed.
+
+  (* right limits on [x0, xn), left limits on (x0, xn] (no exceptional points),
+     integral, breakpoints *)
+  Theorem history_pointwise_pwl : forall bs ops, Forall good_l bs -> lops_ok (length bs) ops ->
+    let v := lrun ROps ops (bs, []) in
+    let tr := ltrun ops (ltbases bs) in
+    let B := bs ++ lnews ops in
+    length (snd tr) = length (fst v) /\
+    forall k f, nth_error (fst v) k = Some f ->
+      exists inf, nth_error (snd tr) k = Some inf /\
+        (length (coef inf) <= length B)%nat /\
+        (forall t, x0 <= t < xn ->
+           pwl_right ROps (fst (fst f)) (snd (fst f)) (snd f) t
+           = Some (dot (coef inf) (map (rlim t) B))) /\
+        (forall t, x0 < t <= xn ->
+           pwl_left ROps (fst (fst f)) (snd (fst f)) (snd f) t
+           = Some (dot (coef inf) (map (llim t) B))) /\
+        pwl_int_all ROps (fst (fst f)) (snd (fst f)) (snd f) = dot (coef inf) (map intof_l B) /\
+        Forall (fun i => (i < length B)%nat) (srcs inf) /\
+        fst (fst f) = sort_unique ROps (bps_l B (srcs inf)).
+  Proof.
+    intros bs ops Hb Ho v tr B.
+    destruct (lhinv_run ops (bs, []) (ltbases bs) (lhinv_bases bs Hb) Ho) as (He & _ & H2).
+    fold v tr in H2. assert (EB : fst tr = B) by (unfold tr; rewrite ltrun_bases; reflexivity).
+    rewrite EB in H2. split; [symmetry; eapply F2_length; eauto|].
+    intros k f Hk.
+    destruct (F2_nth_l _ _ _ H2 k f Hk) as (a & Ea & _ & R2 & R3 & R4 & R5 & R6 & R7).
+    exists a. repeat split; auto.
+  Qed.
+
+  (* the limits of the base functions exist, so [rlim]/[llim] are their values *)
+  Lemma rlim_value b t : good_l b -> x0 <= t < xn -> rlim_of b t = Some (rlim t b).
+  Proof.
+    intros (W & F0 & FL) Ht. unfold rlim, rlim_of. destruct b as [[xs y1] y2].
+    unfold xs_of in *. cbn [fst snd] in *.
+    destruct (pwl_right_some xs y1 y2 t W) as [v ->]; [rewrite F0, FL; auto|reflexivity].
+  Qed.
+  Lemma llim_value b t : good_l b -> x0 < t <= xn -> llim_of b t = Some (llim t b).
+  Proof.
+    intros (W & F0 & FL) Ht. unfold llim, llim_of. destruct b as [[xs y1] y2].
+    unfold xs_of in *. cbn [fst snd] in *.
+    destruct (pwl_left_some xs y1 y2 t W) as [v ->]; [rewrite F0, FL; auto|reflexivity].
+  Qed.
+
+End PwlHistory.
+
+(* ------------------------------------------------------------------ *)
+(* a small check of the symbolic trace (same history as HeapTests.ops1 in
+   Heap.v, whose Q evaluation gives object 0 = 3*(f0+f1), object 1 = f1+f1,
+   object 2 = 2*f0) *)
+Example trace_example : forall f0x f0y f1x f1y : list R,
+  let ops := [ONew f0x f0y; ONew f1x f1y; OCopy 0; OAdd 0 1; OMul 0 3; OMul 2 2; OAdd 1 1] in
+  let tr := trun ops tempty in
+  fst tr = [(f0x, f0y); (f1x, f1y)] /\
+  map srcs (snd tr) = [[0; 1]; [1; 1]; [0]]%nat /\
+  map coef (snd tr) = [[3; 3]; [0; 2]; [2]].
+Proof.
+  intros. cbn. repeat split.
+  repeat (apply f_equal2; [repeat (apply f_equal2; [try lra|]); try reflexivity|]); reflexivity.
+Qed.
+
+(* ------------------------------------------------------------------ *)
+(* C09 on the heap model: the history theorems transported along [refines] *)
+Corollary history_heap : forall x0 xn ops, ops_ok x0 xn 0 ops ->
+  let s := run ROps ops empty_state in
+  let tr := trun ops tempty in
+  let B := news ops in
+  st_errs s = [] /\
+  forall k f, denote s k = Some f ->
+    (wf_pwc f /\ nthF ROps (fst f) 0 = x0 /\ lastF ROps (fst f) = xn) /\
+    exists inf, nth_error (snd tr) k = Some inf /\
+      (forall t, x0 < t < xn -> generic B t ->
+         pwc_at ROps (fst f) (snd f) t = Some (dot (coef inf) (map (valat t) B))) /\
+      pwc_int_all ROps (fst f) (snd f) = dot (coef inf) (map intof B) /\
+      fst f = sort_unique ROps (bps B (srcs inf)).
+Proof.
+  intros x0 xn ops Ho s tr B.
+  destruct (history_wf x0 xn [] ops (Forall_nil _) Ho) as [He Hg]. cbv zeta in He, Hg.
+  destruct (history_pointwise x0 xn [] ops (Forall_nil _) Ho) as [_ Hp]. cbv zeta in Hp.
+  pose proof (history_breakpoints x0 xn [] ops (Forall_nil _) Ho) as Hb. cbv zeta in Hb.
+  cbn [app] in Hp, Hb. change (tbases []) with tempty in Hp, Hb.
+  split.
+  - destruct (refines ROps ops 0%nat) as [_ E]. unfold s. rewrite E. exact He.
+  - intros k f Hk. destruct (refines ROps ops k) as [E _]. unfold s in Hk. rewrite E in Hk.
+    split.
+    + rewrite Forall_forall in Hg. apply Hg. eapply nth_error_In; exact Hk.
+    + destruct (Hp k f Hk) as (inf & E1 & _ & P1 & P2).
+      destruct (Hb k f Hk) as (inf' & E2 & _ & P3 & _).
+      rewrite E1 in E2. injection E2 as <-. exists inf. repeat split; auto.
+Qed.
+
+(* ------------------------------------------------------------------ *)
+Print Assumptions history_wf.
+Print Assumptions history_pointwise.
+Print Assumptions history_breakpoints.
+Print Assumptions inv_run.
+Print Assumptions frame_add.
+Print Assumptions frame_mul.
+Print Assumptions copy_independent.
+Print Assumptions refines.
+Print Assumptions history_wf_pwl.
+Print Assumptions history_pointwise_pwl.
+Print Assumptions history_heap.
